@@ -168,21 +168,40 @@ def parseDelivery (n : Nat) (s : String) : Option HF.Op :=
     else if s.startsWith "b" then some (.block k)
     else none
 
+def insertById (x : Nat × Nat × Nat) : List (Nat × Nat × Nat) → List (Nat × Nat × Nat)
+  | [] => [x]
+  | y :: ys => if x.1 ≤ y.1 then x :: y :: ys else y :: insertById x ys
+
 def runHF (ps : List Nat) (bad : List Nat) (ops : List HF.Op) : String :=
   let P := Spec.parentOf ps
-  let depths : Array Nat := (List.range (ps.length + 1)).foldl
+  let nodes := List.range (ps.length + 1)
+  let depths : Array Nat := nodes.foldl
     (fun (a : Array Nat) n => a.push (match P n with | none => 0 | some p => a.getD p 0 + 1)) #[]
-  let e : HF.Env := { P := P, W := fun n => depths.getD n 0 + 1, bad := fun n => bad.contains n }
-  let rec go (s : HF.State) (ops : List HF.Op) (acc : List String) : List String :=
+  let depth := fun n => depths.getD n 0
+  let e : HF.Env := { P := P, W := fun n => depth n + 1, bad := fun n => bad.contains n }
+  let obs (s : HF.State) : String :=
+    let fork := match HF.forkNode e s.b s.h with | some f => depth f | none => 0
+    let tips := (HF.chainTips e depth nodes s.b s.h).foldr insertById []
+    let tipsS := ",".intercalate (tips.map (fun t => s!"{t.1}.{t.2.1}.{t.2.2}"))
+    s!"f{fork}/{tipsS}"
+  let rec go (s : HF.State) (ops : List HF.Op) (acc : List String) : HF.State × List String :=
     match ops with
-    | [] => acc.reverse
+    | [] => (s, acc.reverse)
     | op :: rest =>
       let (s', r) := HF.step e s op
       let n := match op with | .header n => n | .block n => n
       let v := b01 (HF.isValidHeader e s'.b s'.h n)
-      go s' rest (s!"{hfRes r}/{s'.h.best}@{depths.getD s'.h.best 0}/{s'.b.tip}@{depths.getD s'.b.tip 0}/{v}" :: acc)
-  let outs := go {} ops []
-  if outs.isEmpty then "-" else "|".intercalate outs
+      go s' rest (s!"{hfRes r}/{s'.h.best}@{depth s'.h.best}/{s'.b.tip}@{depth s'.b.tip}/{v}/{obs s'}" :: acc)
+  let (sf, outs) := go {} ops []
+  -- final observations: the best-header chain by height, its locator, and the tip reached by
+  -- delivering the blocks alone (equal to the interleaved run's tip by `headers_then_blocks…`)
+  let maxH := depths.foldl Nat.max 0
+  let hdrs := (List.range (maxH + 2)).map (fun (h : Nat) => pid (Spec.ancestorAt P sf.h.best (h : Int)))
+  let hloc := (Spec.locatorHeights (depth sf.h.best)).map
+    (fun (k : Nat) => pid (Spec.ancestorAt P sf.h.best (k : Int)))
+  let bo := (HF.run e {} (ops.filter HF.Op.isBlock)).b.tip
+  "|".intercalate (outs ++ [s!"hdrs={".".intercalate hdrs}", s!"hloc={".".intercalate hloc}",
+    s!"blocksonly={bo}@{depth bo}"])
 
 def handle : List String → String
   | ["gah", h] => match h.toNat? with
